@@ -74,7 +74,7 @@ static const char *syminitchtab =
 static bool
 issyminitch(const char c)
 {
-    return strchr(syminitchtab, c) != NULL;
+    return c != '\0' && strchr(syminitchtab, c) != NULL;
 }
 
 static bool
